@@ -80,13 +80,6 @@ func (s segment) Index() int {
 }
 
 func resolve(sel Selector, subject ipld.Node, at []string) (ipld.Node, error) {
-	errIfNotOptional := func(s segment, err error) error {
-		if !s.Optional() {
-			return err
-		}
-		return nil
-	}
-
 	cur := subject
 	for _, seg := range sel {
 		// 1st level: handle the different segment types (iterator, field, slice, index)
@@ -140,7 +133,12 @@ func resolve(sel Selector, subject ipld.Node, at []string) (ipld.Node, error) {
 			switch {
 			case cur == nil:
 				err := newResolutionError(fmt.Sprintf("can not access field: %s on kind: %s", seg.Field(), kindString(cur)), at)
-				return nil, errIfNotOptional(seg, err)
+				if !seg.Optional() {
+					return nil, err
+				}
+				// optional: no value, the remaining segments are resolved against it
+				cur = nil
+				continue
 
 			case cur.Kind() == datamodel.Kind_Map:
 				n, err := cur.LookupByString(seg.Field())
@@ -157,13 +155,23 @@ func resolve(sel Selector, subject ipld.Node, at []string) (ipld.Node, error) {
 
 			default:
 				err := newResolutionError(fmt.Sprintf("can not access field: %s on kind: %s", seg.Field(), kindString(cur)), at)
-				return nil, errIfNotOptional(seg, err)
+				if !seg.Optional() {
+					return nil, err
+				}
+				// optional: no value, the remaining segments are resolved against it
+				cur = nil
+				continue
 			}
 
 		case len(seg.Slice()) > 0:
 			if cur == nil {
 				err := newResolutionError(fmt.Sprintf("can not slice on kind: %s", kindString(cur)), at)
-				return nil, errIfNotOptional(seg, err)
+				if !seg.Optional() {
+					return nil, err
+				}
+				// optional: no value, the remaining segments are resolved against it
+				cur = nil
+				continue
 			}
 
 			slice := seg.Slice()
@@ -208,7 +216,12 @@ func resolve(sel Selector, subject ipld.Node, at []string) (ipld.Node, error) {
 
 			if cur == nil {
 				err := newResolutionError(fmt.Sprintf("can not access index: %d on kind: %s", seg.Index(), kindString(cur)), at)
-				return nil, errIfNotOptional(seg, err)
+				if !seg.Optional() {
+					return nil, err
+				}
+				// optional: no value, the remaining segments are resolved against it
+				cur = nil
+				continue
 			}
 
 			idx := seg.Index()
@@ -219,7 +232,12 @@ func resolve(sel Selector, subject ipld.Node, at []string) (ipld.Node, error) {
 				}
 				if idx < 0 || idx >= int(cur.Length()) {
 					err := newResolutionError(fmt.Sprintf("index out of bounds: %d", seg.Index()), at)
-					return nil, errIfNotOptional(seg, err)
+					if !seg.Optional() {
+						return nil, err
+					}
+					// optional: no value, the remaining segments are resolved against it
+					cur = nil
+					continue
 				}
 				cur, _ = cur.LookupByIndex(int64(idx))
 
@@ -230,13 +248,23 @@ func resolve(sel Selector, subject ipld.Node, at []string) (ipld.Node, error) {
 				}
 				if idx < 0 || idx >= len(b) {
 					err := newResolutionError(fmt.Sprintf("index %d out of bounds for bytes of length %d", seg.Index(), len(b)), at)
-					return nil, errIfNotOptional(seg, err)
+					if !seg.Optional() {
+						return nil, err
+					}
+					// optional: no value, the remaining segments are resolved against it
+					cur = nil
+					continue
 				}
 				cur = basicnode.NewInt(int64(b[idx]))
 
 			default:
 				err := newResolutionError(fmt.Sprintf("can not access index: %d on kind: %s", seg.Index(), kindString(cur)), at)
-				return nil, errIfNotOptional(seg, err)
+				if !seg.Optional() {
+					return nil, err
+				}
+				// optional: no value, the remaining segments are resolved against it
+				cur = nil
+				continue
 			}
 		}
 	}
